@@ -20,6 +20,39 @@ def dec(s):
     return re.sub(r'(?:%[0-9A-Fa-f]{2})+', lambda m: bytes(int(h, 16) for h in m.group(0)[1:].split('%')).decode('utf-8', 'replace'), s)
 
 
+def venc(v):
+    """attribute VALUES keep their JSON type on the wire: None, booleans, numbers and strings are different values"""
+    if v is None:
+        return '~None'
+    if v is True:
+        return '~True'
+    if v is False:
+        return '~False'
+    if isinstance(v, int):
+        return '~i%d' % v
+    if isinstance(v, float):
+        return '~f%r' % v
+    if isinstance(v, str):
+        return enc(v)
+    return '~json' + enc(__import__('json').dumps(v, sort_keys=True))
+
+
+def vdec(t):
+    if t == '~None':
+        return None
+    if t == '~True':
+        return True
+    if t == '~False':
+        return False
+    if t.startswith('~i'):
+        return int(t[2:])
+    if t.startswith('~f'):
+        return float(t[2:])
+    if t.startswith('~json'):
+        return __import__('json').loads(dec(t[5:]))
+    return dec(t)
+
+
 def RAISED(e):
     """where an unexpected exception came from (innermost frame inside spil/resolva), for findings"""
     tb = e.__traceback__
